@@ -35,6 +35,7 @@ type c11Scenario struct {
 	Spec      *scanSpec  `json:"spec"`
 	World     *WorldSpec `json:"world"`
 	OddFrames []string   `json:"odd_arp_frames,omitempty"`
+	BadTargetLines int   `json:"bad_target_lines,omitempty"`
 }
 
 var c11SpecialMACs = [][6]byte{
@@ -425,6 +426,27 @@ func runC11Compose(t *testing.T, c simrt.Chooser, o Opts) *Out {
 		}
 		w.FileFault = map[string]FileFault{name: *cacheFault}
 	}
+	// bad lines in the target list (they do not stop the reader): every valid line around them is
+	// still addressed to the MAC of its own destination
+	nBadLines := 0
+	// (address/port pair lists only: an address list stops at its first bad line)
+	// (An address list stops at its first bad line, so there the bad line is the last one; with a
+	// port list the file is read again for every port, and the error request of one port is followed
+	// by the valid requests of the next.)
+	if data, ok := w.Files[targetsFn]; ok && (s.Mode == "pairs" || s.Mode == "ips-ports") && p.pct("badlines", 50) {
+		ls := strings.Split(strings.TrimSuffix(data, "\n"), "\n")
+		for i := 1 + p.n("nbad", 3); i > 0 && (s.Mode == "pairs" || nBadLines == 0); i-- {
+			k := p.n("badpos", len(ls)+1)
+			bad := `{"ip":"10.0.0.300","port":80}`
+			if s.Mode != "pairs" {
+				k, bad = len(ls), `{"ip":"10.0.0.300"}`
+			}
+			ls = append(ls[:k], append([]string{bad}, ls[k:]...)...)
+			nBadLines++
+		}
+		w.Files[targetsFn] = strings.Join(ls, "\n") + "\n"
+		sc.BadTargetLines = nBadLines
+	}
 	w.NumCPU = p.pick("numcpu2", 1, 2, 4, 16)
 	sc.Spec, sc.World = s, w
 	cr := runCmd(t, c, w, o.Trace)
@@ -524,10 +546,13 @@ func runC11Compose(t *testing.T, c simrt.Chooser, o Opts) *Out {
 		out.violate("C11.probes", sig+"/"+gwMode, "argv %v: probes differ from the specification: missing %v, extra %v", w.Argv, firstN(missing, 5), firstN(extra, 5))
 	}
 	gotErr := map[string]int{}
+	nBadSeen := 0
 	for _, e := range cr.Errs {
 		cl := c13Classify(e.Err)
 		if strings.HasPrefix(cl, "nomac:") {
 			gotErr[strings.TrimPrefix(cl, "nomac:")]++
+		} else if cl == "address" && nBadSeen < nBadLines*max(1, len(s.portList())) {
+			nBadSeen++ // the injected bad target line(s)
 		} else {
 			out.violate("C11.errors", sig+"/other", "argv %v: unexpected error record %q", w.Argv, e.Err)
 		}
